@@ -425,6 +425,8 @@ class Interp:
             return self.lib.module_attr(v, name)
         if isinstance(v, SuperProxy):
             return self.super_attr(v, name)
+        if isinstance(v, Opaque) and not v.spec:
+            return Opaque(v.name + '.' + name)
         if isinstance(v, Sym) and v.cls is not None:
             if name == '__class__':
                 return ClassVal(v.cls)
